@@ -8,7 +8,7 @@
  * heap copy):
  *
  *   hmac_*_final case   for every message length m in {0,1,B-1,B,B+1,2B}: MAC computed with one
- *                       update, with m one-byte updates, and with empty/B-1/empty/rest updates must
+ *                       update, with m one-byte updates (m <= B+1), and with empty/B-1/empty/rest updates must
  *                       equal the reference; afterwards the keyed pad and the sensitive fields of
  *                       the hash context are zero.
  *   one-shot cases      hmac_X(), X_hmac_get_digest(), X_hmac_get_digest_str() for the same m.
@@ -21,10 +21,11 @@
  * Reference: Python hmac table (expected_hmac.h) for MD5/SHA-x; RFC 2104 written out over the
  * reference Streebog (ref_streebog.c, anchored by the RFC 7836 vectors) for GOST.
  *
- * H_LEVEL  BFS key lengths                                   BFS alignments
- *   0      {0,1,B-1,B,B+1,3B+1}                              {0,1,31}
- *   1      {0,1,B-1,B,B+1,2B,2B+1,3B,3B+1}                   {0,1,3,4,8,31,63}
- *   2      every k = 0..3B+1                                 the 7 for the nine boundary lengths, {0,1,31} otherwise
+ * H_LEVEL  BFS key lengths                       L (states n = 0..L)            BFS alignments
+ *   0      {0,B,3B+1}                            B+2                            {0,1,31}
+ *   1      {0,1,B-1,B,B+1,2B,2B+1,3B,3B+1}       2B                             {0,1,31}
+ *   2      every k = 0..3B+1                     2B for the nine above, else B+2   {0,1,3,4,8,31,63} for the nine, else {0,1,31}
+ * Both dead-byte poisons for the first two alignments (aligned + unaligned source), alternating after.
  */
 #define H_WITH_HMAC 1
 #include "hcommon.h"
@@ -35,8 +36,6 @@ static const uint8_t *const exph_base[HALG_COUNT] = {
 	(const uint8_t *)exph_sha2_256, (const uint8_t *)exph_sha2_384, (const uint8_t *)exph_sha2_512,
 	NULL, NULL
 };
-static const int h_aligns_3[] = { 0, 1, 31 };
-static const uint8_t h_poisons[2] = { 0x00, 0xA5 };
 
 static void
 msg_lens(const halg_t *A, size_t *ml) {
@@ -63,30 +62,32 @@ is_boundary_key(const halg_t *A, size_t k) {
 	    2 * B + 1 == k || 3 * B == k || 3 * B + 1 == k);
 }
 
-/* alignments of the BFS for this key length; 0 = no BFS */
+/* alignments and message length of the BFS for this key length; 0 = no BFS */
 static int
-bfs_aligns(const halg_t *A, size_t k, const int **al) {
+bfs_params(const halg_t *A, size_t k, const int **al, size_t *L) {
 	size_t B = A->B;
 #if H_LEVEL == 0
-	if (0 == k || 1 == k || B - 1 == k || B == k || B + 1 == k || 3 * B + 1 == k) {
+	if (0 == k || B == k || 3 * B + 1 == k) {
 		(*al) = h_aligns_3;
+		(*L) = B + 2;
 		return (3);
 	}
 	return (0);
 #elif H_LEVEL == 1
-	(void)B;
 	if (is_boundary_key(A, k)) {
-		(*al) = h_aligns_sub;
-		return (7);
+		(*al) = h_aligns_3;
+		(*L) = 2 * B;
+		return (3);
 	}
 	return (0);
 #else
-	(void)B;
 	if (is_boundary_key(A, k)) {
 		(*al) = h_aligns_sub;
+		(*L) = 2 * B;
 		return (7);
 	}
 	(*al) = h_aligns_3;
+	(*L) = B + 2;
 	return (3);
 #endif
 }
@@ -152,7 +153,6 @@ main(int argc, char **argv) {
 
 		snprintf(hpfx, sizeof(hpfx), "hmac_%s", A->pfx);
 		msg_lens(A, ml);
-		L = 2 * A->B;
 
 		for (v = 0; v < A->nvar; v ++) {
 			const char *t_update = h_name(hpfx, "_update", A->sfx, A->vname[v]);
@@ -178,15 +178,17 @@ main(int argc, char **argv) {
 						h_poison(A, W, 1, 0x00);
 						snprintf(how, sizeof(how), "mlen=%zu one update", m);
 						bad |= do_final(A, W, want, 1, how);
-						/* byte by byte */
-						memcpy(W, H0, A->hctx_size);
-						for (i = 0; i < m; i ++) {
-							A->h_update(W, src + i, 1);
-							h_transitions ++;
+						/* byte by byte (the lengths around one block; longer ones add nothing C04 does not cover) */
+						if (m <= A->B + 1) {
+							memcpy(W, H0, A->hctx_size);
+							for (i = 0; i < m; i ++) {
+								A->h_update(W, src + i, 1);
+								h_transitions ++;
+							}
+							h_poison(A, W, 1, 0xA5);
+							snprintf(how, sizeof(how), "mlen=%zu one-byte updates", m);
+							bad |= do_final(A, W, want, 0, how);
 						}
-						h_poison(A, W, 1, 0xA5);
-						snprintf(how, sizeof(how), "mlen=%zu one-byte updates", m);
-						bad |= do_final(A, W, want, 0, how);
 						/* empty | B-1 | empty | rest */
 						memcpy(W, H0, A->hctx_size);
 						i = (m < A->B - 1) ? m : (A->B - 1);
@@ -206,7 +208,7 @@ main(int argc, char **argv) {
 				}
 
 				/* ---- partition confluence on hmac_*_update */
-				nal = bfs_aligns(A, k, &al);
+				nal = bfs_params(A, k, &al, &L);
 				if (0 != nal && vh_begin(t_update)) {
 					void *H0 = make_h0(A, A->vname[v], k), *W, *base;
 					uint8_t *S[2], *canon;
@@ -242,6 +244,8 @@ main(int argc, char **argv) {
 								for (pz = 0; pz < 2; pz ++) {
 									size_t len;
 
+									if (a >= H_BOTH && pz != (a & 1))
+										continue;
 									memcpy(W, S[pz] + n * A->hctx_size, A->hctx_size);
 									A->h_update(W, src, c);
 									h_transitions ++;
@@ -258,7 +262,7 @@ main(int argc, char **argv) {
 							}
 						}
 					}
-					for (mi = 0; mi < 6; mi ++) {
+					for (mi = 0; mi < 6 && ml[mi] <= L; mi ++) {
 						expected(ai, k, mi, want);
 						for (pz = 0; pz < 2; pz ++) {
 							memcpy(W, S[pz] + ml[mi] * A->hctx_size, A->hctx_size);
